@@ -202,6 +202,15 @@ pub fn node_response(n: &Node) -> Script {
     node_response_to(n, false)
 }
 
+/// the cookies a node's response sets
+pub fn node_cookies(n: &Node) -> Vec<String> {
+    if n.url.len() % 2 == 1 {
+        vec![format!("hop{}=1; Path=/", n.status), format!("len{}=x", n.url.len())]
+    } else {
+        vec![]
+    }
+}
+
 /// the body a node's final response carries (nothing for 204/304)
 pub fn node_body(n: &Node) -> String {
     if n.status == 204 || n.status == 304 {
@@ -226,6 +235,15 @@ pub fn node_response_to(n: &Node, head_request: bool) -> Script {
     }
     if let Some(l) = &n.location {
         head.push_str(&format!("Location: {}\r\n", l));
+    }
+    // (no draw) every head says which node it is; redirecting nodes set cookies and ask for patience now and
+    // then - fields of *their* response, which the client neither obeys nor hands on
+    head.push_str(&format!("X-Node: {}\r\n", n.url));
+    for c in node_cookies(n) {
+        head.push_str(&format!("Set-Cookie: {}\r\n", c));
+    }
+    if n.location.is_some() && n.url.len() % 4 == 2 {
+        head.push_str(&format!("Retry-After: {}\r\n", [5u32, 120, 0, 3600][(n.url.len() / 4) % 4]));
     }
     let body = node_body(n);
     let followed = n.location.is_some() && FOLLOWED.contains(&n.status);
@@ -383,6 +401,105 @@ fn long_chain_family(g: &mut G, ctx: &RunCtx) -> RunReport {
     }
 }
 
+#[cfg(feature = "native")]
+fn ca_cert() -> native_tls::Certificate {
+    native_tls::Certificate::from_pem(crate::tlspeer::CA_PEM.as_bytes()).expect("CA pem")
+}
+#[cfg(all(feature = "rustls-backend", not(feature = "native")))]
+fn ca_cert() -> rustls::pki_types::CertificateDer<'static> {
+    rustls_pemfile::certs(&mut crate::tlspeer::CA_PEM.as_bytes()).next().unwrap().unwrap()
+}
+
+/// The redirect every site has: `http://host/path?query` -> `https://host/path?query`.  It is a redirect like
+/// any other and counts against the bound like any other.
+fn upgrade_family(g: &mut G, ctx: &RunCtx) -> RunReport {
+    g.probe("family:redirect-from-http-to-the-same-url-over-https");
+    let status = *g.pick(&[301u16, 308, 302, 307]);
+    let max = g.below(3) as u32;
+    // after the upgrade: the final answer, or one more redirect on the https side
+    let more = g.chance(1, 2);
+    let sim = Sim::new(ctx.sim_config());
+    let ip: IpAddr = "10.0.0.5".parse().unwrap();
+    sim.add_host("secure.test", vec![ip]);
+    let seen = Arc::new(Mutex::new(Seen::default()));
+    let seen_tls = Arc::new(Mutex::new(Seen::default()));
+    {
+        let seen = seen.clone();
+        sim.add_listener(
+            ip,
+            80,
+            ConnectBehaviour::Accept { latency_ns: NS_PER_MS },
+            Some(Box::new(move |_i| {
+                Box::new(HttpPeer::new(
+                    Arc::new(move |r, _c| {
+                        let mut s = Script::default();
+                        s.acts.push(Act::Send(format!("HTTP/1.1 {} Moved\r\nLocation: https://secure.test{}\r\nContent-Length: 0\r\n\r\n", status, r.target).into_bytes()));
+                        s.acts.push(Act::Fin);
+                        s
+                    }),
+                    seen.clone(),
+                ))
+            })),
+        );
+    }
+    {
+        let seen = seen_tls.clone();
+        let tlog = Arc::new(Mutex::new(crate::tlspeer::TlsLog::default()));
+        sim.add_listener(
+            ip,
+            443,
+            ConnectBehaviour::Accept { latency_ns: NS_PER_MS },
+            Some(Box::new(move |i| {
+                let inner = HttpPeer::new(
+                    Arc::new(move |r, _c| {
+                        let mut s = Script::default();
+                        if more && r.target.starts_with("/page") {
+                            s.acts.push(Act::Send(b"HTTP/1.1 302 Found\r\nLocation: /elsewhere\r\nContent-Length: 0\r\n\r\n".to_vec()));
+                        } else {
+                            s.acts.push(Act::Send(b"HTTP/1.1 200 OK\r\nContent-Length: 4\r\n\r\ndone".to_vec()));
+                        }
+                        s.acts.push(Act::Fin);
+                        s
+                    }),
+                    seen.clone(),
+                );
+                Box::new(crate::tlspeer::TlsPeer::new("good", Box::new(inner), tlog.clone(), i.conn))
+            })),
+        );
+    }
+    let out = sim.run(|| {
+        let r = attohttpc::get("http://secure.test/page?id=7").max_redirections(max).proxy_settings(attohttpc::ProxySettings::builder().build()).add_root_certificate(ca_cert()).send();
+        match r {
+            Ok(r) => Ok((r.status().as_u16(), r.url().to_string())),
+            Err(e) => Err(err_kind(&e)),
+        }
+    });
+    let mut stats = Stats::default();
+    stats.absorb(&out.history);
+    // reference: hop 0 (http), hop 1 (https, same path), hop 2 (https /elsewhere) when there is one more
+    let chain = if more { 3u32 } else { 2 };
+    let want_requests = chain.min(max + 1);
+    let want_ok = max + 1 >= chain;
+    let got_requests = (seen.lock().unwrap().requests.len() + seen_tls.lock().unwrap().requests.len()) as u32;
+    let desc = format!("http://secure.test/page?id=7 -> {} -> https://secure.test/page?id=7{} with max_redirections({})", status, if more { " -> 302 -> /elsewhere" } else { "" }, max);
+    let verdict = match &out.result {
+        None => violation("hang", "run torn down"),
+        Some(Err(m)) => violation("panic", m.clone()),
+        Some(Ok(res)) => {
+            if got_requests != want_requests {
+                violation("upgrade:request-count", format!("{} requests were sent, the bound allows {} ({}; result {:?})", got_requests, want_requests, desc, res))
+            } else {
+                match (want_ok, res) {
+                    (true, Ok((200, u))) if u == &format!("https://secure.test{}", if more { "/elsewhere" } else { "/page?id=7" }) => Verdict::Pass,
+                    (false, Err(k)) if k == "TooManyRedirections" => Verdict::Pass,
+                    (_, other) => violation("upgrade:result", format!("send() returned {:?} ({})", other, desc)),
+                }
+            }
+        }
+    };
+    RunReport { verdict, shape: format!("upgrade/{}/max{}/more={}", status, max, more), nontrivial: true, stats, sched_tape: out.sched_tape, describe: if ctx.describe { desc } else { String::new() } }
+}
+
 pub fn scenario(g: &mut G, ctx: &RunCtx) -> RunReport {
     let mut max = g.below(7) as u32;
     let follow = !g.chance(1, 6);
@@ -484,9 +601,14 @@ pub fn scenario(g: &mut G, ctx: &RunCtx) -> RunReport {
     if head_method {
         g.probe("redirect-chain-walked-with-HEAD");
     }
+    // (no draw) a caller with an overall timeout of two seconds (the whole walk takes milliseconds)
+    let patient = (gr.nodes.len() + 2 * gr.nodes[0].url.len()) % 16 == 0;
     // drawn last: recorded tapes keep their meaning
     if g.chance(1, 40) {
         return long_chain_family(g, ctx);
+    }
+    if g.chance(1, 60) {
+        return upgrade_family(g, ctx);
     }
     let out = sim.run(|| {
         let mut session = attohttpc::Session::new();
@@ -513,12 +635,17 @@ pub fn scenario(g: &mut G, ctx: &RunCtx) -> RunReport {
                 };
             }
         }
+        if patient {
+            rb = rb.timeout(std::time::Duration::from_millis(2000));
+        }
         match rb.send() {
             Ok(r) => {
                 let (st, url) = (r.status().as_u16(), r.url().to_string());
+                let who = r.headers().get("x-node").map(|v| String::from_utf8_lossy(v.as_bytes()).into_owned()).unwrap_or_default();
+                let cookies: Vec<String> = r.headers().get_all("set-cookie").iter().map(|v| String::from_utf8_lossy(v.as_bytes()).into_owned()).collect();
                 // the final response is well-formed: its body is what that node's server sent
                 let body = r.text_utf8().unwrap_or_else(|e| format!("<{}>", err_kind(&e)));
-                Ok((st, url, body))
+                Ok((st, url, format!("{}\u{1}{}\u{1}{}", body, who, cookies.join("\u{2}"))))
             }
             Err(e) => Err(err_kind(&e)),
         }
@@ -596,7 +723,21 @@ pub fn scenario(g: &mut G, ctx: &RunCtx) -> RunReport {
                 )
             } else {
                 match (res, &want) {
-                    (Ok((st, url, body)), Outcome::Ok { status, url: wurl }) => {
+                    (Ok((st, url, packed)), Outcome::Ok { status, url: wurl }) => {
+                        let mut parts = packed.split('\u{1}');
+                        let (body, who, cookies) = (&parts.next().unwrap_or_default().to_string(), parts.next().unwrap_or_default().to_string(), parts.next().unwrap_or_default().to_string());
+                        let final_node = gr.nodes.iter().find(|n| &n.url == wurl);
+                        let want_cookies = final_node.map(|n| node_cookies(n).join("\u{2}")).unwrap_or_default();
+                        if final_node.is_some() && (&who != wurl || cookies != want_cookies) {
+                            return RunReport {
+                                verdict: violation("final-head-is-not-the-final-node's", format!("the response returned for {} carries X-Node {:?} and Set-Cookie {:?}; that node sent X-Node {:?} and Set-Cookie {:?}", wurl, who, cookies.split('\u{2}').collect::<Vec<_>>(), wurl, want_cookies.split('\u{2}').collect::<Vec<_>>())),
+                                shape: "final-head".into(),
+                                nontrivial: true,
+                                stats,
+                                sched_tape: out.sched_tape.clone(),
+                                describe: String::new(),
+                            };
+                        }
                         let got_url = canon(url);
                         let want_body = if head_method { String::new() } else { gr.nodes.iter().find(|n| &n.url == wurl).map(node_body).unwrap_or_default() };
                         if st != status {
